@@ -26,6 +26,8 @@ from .common import world
 DOUBLING = {"_double", "_double_with_z_1"}
 
 
+CONFIG_SENSITIVE = True      # thorough tier: analysed under all four build configurations
+
 def run(chk):
     chk.rule("R06.1", "tests on coordinate values are exact modulo p")
     chk.rule("R06.2", "representation invariant: constructed / stored coordinates are reduced; Z == 0 mapped to INFINITY before construction")
